@@ -313,7 +313,7 @@ def check_dict(ctx, c):
 CTOR_FAULTS = ["grid-size", "bc-value", "bc-axis", "policy", "mode", "units-symbol", "env-empty", "env-default",
                "env-map-length", "species-D-dim", "species-density-dim", "reaction-k-dim", "grid-vol-dim",
                "node-vol-dim", "edge-sfc-dim", "edge-dst-dim", "script-time-dim", "state-dim", "env-index",
-               "unit-string"]
+               "unit-string", "network-species", "array-element-dim"]
 
 
 def strat_ctor(ctx):
@@ -459,6 +459,29 @@ def check_ctor(ctx, c):
         bad = wrong_q(dim, pick, form)
         refused_setter(e, attr, bad, right_q(dim, form), "edge." + attr)
         must_raise("RDGraphSpaceEdge(%s=%r)" % (attr, str(bad)), S.RDGraphSpaceEdge, 0, 1, **{attr: bad})
+    elif f == "network-species":
+        # statement: "unknown species"; code's own check: RDNetwork._assert_validity
+        sp3 = lambda: [S.Species("A"), S.Species("B"), S.Species("C")]  # noqa: E731
+        sut_call("RDNetwork(valid)", S.RDNetwork, sp3(), [S.Reaction("A + B -> C", label="r")])
+        eq = ["A -> Z", "Z -> A", "A + B -> Z", "A + Z -> B", "A -> B + 2 Z", " -> Z", "Z -> ", "2 A -> A + Z"][pick % 8]
+        must_raise("RDNetwork with reaction %r naming the undeclared species Z" % eq, S.RDNetwork, sp3(), [S.Reaction(eq)])
+        must_raise("rdnetwork_from_dict with reaction %r naming the undeclared species Z" % eq, S.rdnetwork_from_dict,
+                   {"species": [{"label": "A"}, {"label": "B"}, {"label": "C"}], "reactions": [{"stoichiometry": eq}]})
+        dup = [["A", "B", "A"], ["A", "A"], ["B", "A", "C", "B"], ["C", "B", "A", "A"]][(pick // 8) % 4]
+        must_raise("RDNetwork with species labels %s" % dup, S.RDNetwork, [S.Species(x) for x in dup], [])
+        rl = [["r", "r"], ["a", "b", "a"], ["x", "y", "y"]][(pick // 32) % 3]
+        must_raise("RDNetwork with reaction labels %s" % rl, S.RDNetwork, sp3(), [S.Reaction("A -> B", label=x) for x in rl])
+    elif f == "array-element-dim":
+        # an array field whose elements are quantities: one element of another dimension (same or other base units)
+        system = S.RDSystem(S.RDNetwork([S.Species("A")], []), S.RDGridSpace(w=2))
+        bad_t = [S.UnitValue(1, ["µm", "molecule", "m", "µm2/s", "mol"][pick % 5]), "1 " + ["µm", "molecule", "km", "s-1", "M"][pick % 5]][(pick // 5) % 2]
+        sut_call("RDScript(t_sample=[UnitValue s, '2 min'])", S.RDScript, system, [S.UnitValue(0, "s"), "2 min"])
+        must_raise("RDScript(t_sample=[0 s, %s])" % (bad_t if isinstance(bad_t, str) else str(bad_t)), S.RDScript, system, [S.UnitValue(0, "s"), bad_t])
+        must_raise("UnitArray([1 s, %s], 's')" % (bad_t if isinstance(bad_t, str) else str(bad_t)), S.UnitArray, [S.UnitValue(1, "s"), bad_t], "s")
+        bad_q = [S.UnitValue(1, ["µm", "s", "molecule/µm3", "molecule/s"][pick % 4]), "1 " + ["µm3", "ms", "mM", "mol/s"][pick % 4]][(pick // 4) % 2]
+        sut_call("RDSystem(state=[UnitValue, str])", S.RDSystem, system.network, S.RDGridSpace(w=2), state=[S.UnitValue(1, "molecule"), "2 mol"])
+        must_raise("RDSystem(state=[1 molecule, %s])" % (bad_q if isinstance(bad_q, str) else str(bad_q)), S.RDSystem, system.network, S.RDGridSpace(w=2),
+                   state=[S.UnitValue(1, "molecule"), bad_q])
     elif f == "state-dim":
         net = S.RDNetwork([S.Species("A")], [])
         bad = S.UnitArray([1.0, 2.0], ["s", "µm3", "molecule/µm3", "mol/s", ""][pick % 5])
